@@ -195,17 +195,24 @@ func (w *clientWorld) Now() time.Duration { return time.Since(w.start) }
 
 func routerWelcome(roles bool) *wamp.Welcome {
 	d := wamp.Dict{"authid": "u", "authrole": "r"}
+	feat := wamp.Dict{"features": wamp.Dict{}}
 	if roles {
-		feat := wamp.Dict{"features": wamp.Dict{"payload_passthru_mode": true, "progressive_call_invocations": true, "progressive_call_results": true,
+		feat = wamp.Dict{"features": wamp.Dict{"payload_passthru_mode": true, "progressive_call_invocations": true, "progressive_call_results": true,
 			"call_canceling": true, "pattern_based_subscription": true, "call_timeout": true}}
-		d["roles"] = wamp.Dict{"broker": feat, "dealer": feat}
 	}
+	d["roles"] = wamp.Dict{"broker": feat, "dealer": feat}
 	return &wamp.Welcome{ID: 4242, Details: d}
 }
 
 // newClientWorld creates the client; the scripted router answers the HELLO
 // with WELCOME. Returns nil if the client could not be created.
 func newClientWorld(c *Case, tmo time.Duration, queue int) *clientWorld {
+	return newClientWorldOpt(c, tmo, queue, true)
+}
+
+// newClientWorldOpt: features=false makes the router announce its roles without any feature
+// (no payload passthru, no progressive calls, no call cancelling).
+func newClientWorldOpt(c *Case, tmo time.Duration, queue int, features bool) *clientWorld {
 	cliPeer, rtrPeer := transport.LinkedPeersQSize(queue)
 	w := &clientWorld{log: sim.NewLogBuf(200), start: time.Now(), tmo: tmo}
 	w.rtr = &scriptedRouter{peer: rtrPeer, start: w.start, quit: make(chan struct{}), deaf: make(chan struct{}), sendMu: make(chan struct{}, 1)}
@@ -219,7 +226,7 @@ func newClientWorld(c *Case, tmo time.Duration, queue int) *clientWorld {
 	synctest.Wait()
 	for _, m := range w.rtr.Take() {
 		if _, ok := m.Msg.(*wamp.Hello); ok {
-			w.rtr.Send(routerWelcome(true))
+			w.rtr.Send(routerWelcome(features))
 		}
 	}
 	synctest.Wait()
